@@ -23,6 +23,9 @@ type c12Case struct {
 	Outcome   string   `json:"outcome"` // changed same notfound mismatch error
 	Overlap   string   `json:"overlap"` // none double
 	Conns     int      `json:"conns"`
+	// Pending: one more resource (a.pend) whose initial get is still
+	// unanswered when the reset arrives
+	Pending bool `json:"pending,omitempty"`
 }
 
 func c12SysCase(c *RunCtx, cs c12Case) {
@@ -70,6 +73,27 @@ func c12SysCase(c *RunCtx, cs c12Case) {
 		c.Inconclusive("C12 system: " + s.res.Inconclusive)
 		return
 	}
+	var pendOld []byte
+	pendAnswered := false
+	if cs.Pending {
+		w.AddModel("a.pend", map[string]Val{"v": P(1), "s": P("old")})
+		pendOld = w.GetResponse("a.pend")
+		s.Req(cls[0], "subscribe.a.pend", nil)
+		s.Quiesce()
+		for _, r := range g.Bus.Outstanding() {
+			if r.Kind == "access" {
+				g.Bus.Reply(r, []byte(`{"result":{"get":true,"call":"*"}}`), nil)
+			}
+		}
+		s.Quiesce()
+		for _, p := range cs.Resources {
+			if refPatternMatch(p, "a.pend") {
+				// the service only changes silently what its reset announces
+				w.Silent("a.pend", func(r *Res) { r.M["v"] = P(2); r.M["s"] = P("new") })
+				break
+			}
+		}
+	}
 	// expected sets from the reference matcher over what is cached
 	type pair struct{ name, query string }
 	wantGets := map[pair]int{}
@@ -92,6 +116,15 @@ func c12SysCase(c *RunCtx, cs c12Case) {
 			}
 		}
 	}
+	if cs.Pending {
+		for _, p := range cs.Resources {
+			if refPatternMatch(p, "a.pend") {
+				// still being requested: the answer on its way may predate the reset
+				wantGets[pair{"a.pend", ""}] = 1
+				break
+			}
+		}
+	}
 	wantAccess := map[string]int{}
 	for _, snap := range g.Svc.VerifConns() {
 		for rid, sub := range snap.Subs {
@@ -99,6 +132,9 @@ func c12SysCase(c *RunCtx, cs c12Case) {
 				continue
 			}
 			name, _ := ridName(rid)
+			if name == "a.pend" {
+				continue // busy loading: its re-check is deferred until it is loaded
+			}
 			for _, p := range cs.Access {
 				if refPatternMatch(p, name) {
 					wantAccess[snap.CID+" "+name]++
@@ -162,6 +198,9 @@ func c12SysCase(c *RunCtx, cs c12Case) {
 		}
 	}
 	for k, v := range gotAccess {
+		if strings.HasSuffix(k, " a.pend") {
+			continue
+		}
 		if wantAccess[k] == 0 {
 			fail("reaccessSet", "access=%v: %d access re-requests for %s which matches no access pattern / is not directly subscribed", cs.Access, v, k)
 		}
@@ -187,6 +226,12 @@ func c12SysCase(c *RunCtx, cs c12Case) {
 			}
 			json.Unmarshal(r.Payload, &p)
 			g.Bus.Reply(r, nil, func() []byte { return w.QueryGetResponse("a.q", p.Query) })
+		case r.Kind == "get" && r.Name == "a.pend" && !pendAnswered:
+			// the initial get, answered from the state before the reset
+			pendAnswered = true
+			g.Bus.Reply(r, pendOld, nil)
+		case r.Kind == "get" && r.Name == "a.pend":
+			g.Bus.Reply(r, nil, func() []byte { return w.GetResponse("a.pend") })
 		case r.Kind == "get":
 			name := r.Name
 			switch cs.Outcome {
@@ -363,6 +408,13 @@ func c12System(c *RunCtx) {
 					c12SysCase(c, cs)
 					c.Eval(1)
 					c.Rep.DistinctN++
+					if (outcome == "changed" || outcome == "same") && conns == 1 && overlap == "none" {
+						cs.Pending = true
+						c.WAL("C12 system %+v", cs)
+						c12SysCase(c, cs)
+						c.Eval(1)
+						c.Rep.DistinctN++
+					}
 					if idx%100 == 1 {
 						c.Sample(cs)
 					}
